@@ -1,7 +1,7 @@
 (* PROOFS, part 9: every history of in-range driver calls against LEGALCARD - results,
    card memory (C12_histories) and legality of the whole bus trace (C14_legal). *)
 From Coq Require Import NArith Arith List Lia Bool ZArith.
-From SdSd Require Import Poly CrcModel CrcProofs SdModel SdSpec SdBound SdSafety SdCapacity SdCardLemmas SdSystem SdInit SdTransfer SdMulti.
+From SdSd Require Import Poly CrcModel CrcProofs SdModel SdSpec SdBound SdSafety SdCapacity SdCardLemmas SdSystem SdInit SdTransfer SdMulti SdOffEnd.
 Import ListNotations.
 Open Scope N_scope.
 
@@ -272,39 +272,74 @@ Section Legal.
     match c with CRead _ idx | CWrite _ idx => negb (idx <? NB) | _ => false end.
   Definition idx_of (c : api_call) : N := match c with CRead _ idx | CWrite _ idx => idx | _ => 0 end.
 
-  (* the calls covered: in range, or rejected outright (any u32 block number) *)
-  Definition legal_call (c : api_call) : Prop := if rejected c then idx_of c < 2 ^ 32 else in_range c.
+  (* a multi-block transfer that starts inside the card and runs off its end *)
+  Definition off_end (c : api_call) : bool :=
+    match c with
+    | CRead n idx => (idx <? NB) && (NB <? idx + N.of_nat n)
+    | CWrite blocks idx => (idx <? NB) && (NB <? idx + N.of_nat (length blocks))
+    | _ => false
+    end.
+
+  (* the calls covered: every call with a u32 block number and 512-byte blocks *)
+  Definition legal_call (c : api_call) : Prop :=
+    if rejected c then idx_of c < 2 ^ 32
+    else if off_end c then match c with CWrite blocks _ => Forall block_ok blocks | _ => True end
+    else in_range c.
 
   Definition spec_outcome (mem : N -> list N) (c : api_call) : outcome api_value :=
     if rejected c then Err (match c with CRead _ _ => ReadError | _ => WriteError end)
+    else if off_end c then Err (match c with CRead _ _ => TimeoutReadBuffer | _ => WriteError end)
     else Ok (snd (spec_step mem c)).
   Definition spec_after (mem : N -> list N) (c : api_call) : N -> list N :=
-    if rejected c then mem else fst (spec_step mem c).
+    if rejected c then mem
+    else if off_end c then
+      match c with CWrite blocks idx => write_mem mem idx (firstn (prefix_len csd idx) blocks) | _ => mem end
+    else fst (spec_step mem c).
 
-  Lemma with_init_err {A} (m : M card A) (k : A -> api_value) s mem e :
+  Lemma with_init_err {A} (m : M card A) (k : A -> api_value) s mem mem' e :
     Inv s mem ->
-    (forall s1, Ready s1 mem -> exists s2, m s1 = (Err e, s2) /\ Ready s2 mem) ->
-    exists s', with_init card card_spi o m k s = (Err e, s') /\ Ready s' mem.
+    (forall s1, Ready s1 mem -> exists s2, m s1 = (Err e, s2) /\ Ready s2 mem') ->
+    exists s', with_init card card_spi o m k s = (Err e, s') /\ Ready s' mem'.
   Proof.
     intros HI Hop. destruct (check_init_ready s mem HI) as (s1 & E1 & R1).
     destruct (Hop s1 R1) as (s2 & E2 & R2). exists s2. split; [|exact R2].
     unfold with_init, bind. rewrite E1, E2. reflexivity.
   Qed.
 
+  Lemma Forall_firstn {A} (P : A -> Prop) n (l : list A) : Forall P l -> Forall P (firstn n l).
+  Proof. revert n. induction l as [|x l IH]; intros [|n] H; cbn; try constructor; inversion H; subst; auto. Qed.
+
   Theorem api_step_all s mem c : Inv s mem -> mem_ok mem -> legal_call c ->
     exists s', API c s = (spec_outcome mem c, s') /\ Inv s' (spec_after mem c) /\ mem_ok (spec_after mem c).
   Proof.
     intros HI Hmem Hl. unfold legal_call, spec_outcome, spec_after in *.
-    destruct (rejected c) eqn:Rj; [|apply api_step; assumption].
-    destruct c as [n idx|blocks idx| | | | |]; cbn [rejected idx_of] in Rj, Hl; try discriminate.
-    - apply negb_true_iff, N.ltb_ge in Rj.
-      destruct (with_init_err (read_inner card card_spi o n idx) VBlocks s mem ReadError HI) as (s' & E & R).
-      { intros s1 R1. apply read_oor_sys; assumption. }
+    destruct (rejected c) eqn:Rj.
+    { destruct c as [n idx|blocks idx| | | | |]; cbn [rejected idx_of] in Rj, Hl; try discriminate.
+      - apply negb_true_iff, N.ltb_ge in Rj.
+        destruct (with_init_err (read_inner card card_spi o n idx) VBlocks s mem mem ReadError HI) as (s' & E & R).
+        { intros s1 R1. apply read_oor_sys; assumption. }
+        exists s'. split; [exact E|]. split; [left; exact R|exact Hmem].
+      - apply negb_true_iff, N.ltb_ge in Rj.
+        destruct (with_init_err (write_inner card card_spi o blocks idx) (fun _ => VUnit) s mem mem WriteError HI) as (s' & E & R).
+        { intros s1 R1. apply write_oor_sys; assumption. }
+        exists s'. split; [exact E|]. split; [left; exact R|exact Hmem]. }
+    destruct (off_end c) eqn:Off; [|apply api_step; assumption].
+    destruct c as [n idx|blocks idx| | | | |]; cbn [off_end] in Off; try discriminate;
+      apply andb_true_iff in Off; destruct Off as [Hi Hn]; apply N.ltb_lt in Hi; apply N.ltb_lt in Hn.
+    - destruct (with_init_err (read_inner card card_spi o n idx) VBlocks s mem mem TimeoutReadBuffer HI) as (s' & E & R).
+      { intros s1 (il & tk & k & t & last & -> & Hk & Hm).
+        destruct (multi_read_off_sys o kd csd tim Htim Haddr mem il tk k t last idx n Hmem Hk Hi Hn Hm)
+          as (t' & tk' & k' & E & Hk' & M).
+        eexists. split; [exact E|]. exists il, tk', k', t', 0. split; [reflexivity|]. split; [exact Hk'|exact M]. }
       exists s'. split; [exact E|]. split; [left; exact R|exact Hmem].
-    - apply negb_true_iff, N.ltb_ge in Rj.
-      destruct (with_init_err (write_inner card card_spi o blocks idx) (fun _ => VUnit) s mem WriteError HI) as (s' & E & R).
-      { intros s1 R1. apply write_oor_sys; assumption. }
-      exists s'. split; [exact E|]. split; [left; exact R|exact Hmem].
+    - destruct (with_init_err (write_inner card card_spi o blocks idx) (fun _ => VUnit) s mem
+                  (write_mem mem idx (firstn (prefix_len csd idx) blocks)) WriteError HI) as (s' & E & R).
+      { intros s1 (il & tk & k & t & last & -> & Hk & Hm).
+        destruct (multi_write_off_sys o kd csd tim Htim Haddr mem il tk k t last idx blocks (Forall_len blocks Hl) Hk Hi Hn Hm)
+          as (t' & tk' & k' & E & Hk' & M).
+        eexists. split; [exact E|]. exists il, tk', k', t', 0. split; [reflexivity|]. split; [exact Hk'|exact M]. }
+      exists s'. split; [exact E|]. split; [left; exact R|].
+      apply write_mem_ok; [exact Hmem|apply Forall_firstn; exact Hl].
   Qed.
 
   (* ---- histories --------------------------------------------------------------------------------- *)
@@ -321,7 +356,7 @@ Section Legal.
   Proof. intros [(il & tk & k & t & last & -> & _)|(_ & _ & _ & _ & _ & _ & Hm & _)]; [reflexivity|exact Hm]. Qed.
 
   Lemma spec_outcome_not_panic mem c : spec_outcome mem c <> Panic.
-  Proof. unfold spec_outcome. destruct (rejected c); discriminate. Qed.
+  Proof. unfold spec_outcome. destruct (rejected c); [discriminate|]. destruct (off_end c); discriminate. Qed.
 
   Theorem history_run : forall cs s mem acc, Inv s mem -> mem_ok mem -> Forall legal_call cs ->
     exists s', run_calls card card_spi o cs acc s = (rev (spec_values mem cs) ++ acc, s') /\
@@ -338,6 +373,21 @@ Section Legal.
       destruct (spec_outcome mem c) as [v|e|] eqn:Eo; [| |congruence]; rewrite E2, <- app_assoc; reflexivity.
   Qed.
 
+  (* every call the Rust API can express: a u32 block number and 512-byte blocks *)
+  Definition api_ok (c : api_call) : Prop :=
+    idx_of c < 2 ^ 32 /\ match c with CWrite blocks _ => Forall block_ok blocks | _ => True end.
+
+  Lemma api_ok_legal c : api_ok c -> legal_call c.
+  Proof.
+    intros [H32 Hb]. unfold legal_call. destruct (rejected c) eqn:Rj; [exact H32|].
+    destruct (off_end c) eqn:Off; [destruct c; try exact I; exact Hb|].
+    destruct c as [n idx|blocks idx| | | | |]; cbn [in_range rejected off_end] in *; try exact I.
+    - apply negb_false_iff, N.ltb_lt in Rj. rewrite (proj2 (N.ltb_lt _ _) Rj) in Off. cbn [andb] in Off.
+      apply N.ltb_ge in Off. split; assumption.
+    - apply negb_false_iff, N.ltb_lt in Rj. rewrite (proj2 (N.ltb_lt _ _) Rj) in Off. cbn [andb] in Off.
+      apply N.ltb_ge in Off. split; [exact Hb|]. split; assumption.
+  Qed.
+
   Lemma Inv_power_on mem : Inv (init_st card (power_on kd csd tim mem)) mem.
   Proof. right. cbn. repeat split. exists h_init. split; reflexivity. Qed.
 
@@ -352,6 +402,16 @@ Section Legal.
     destruct (history_run cs _ mem0 [] (Inv_power_on mem0) Hmem Hall) as (s' & E & I & _).
     exists s'. rewrite app_nil_r in E. split; [exact E|]. split; [exact (Inv_mem _ _ I)|].
     unfold accept. rewrite mon_accept. destruct (Inv_mon _ _ I) as [h ->]. reflexivity.
+  Qed.
+
+  Theorem all_histories mem0 cs : mem_ok mem0 -> Forall api_ok cs ->
+    exists s', run_calls card card_spi o cs [] (init_st card (power_on kd csd tim mem0)) =
+                 (rev (spec_values mem0 cs), s') /\
+               c_mem (dev s') = spec_mem mem0 cs /\
+               accept (rev (tr s')) = true.
+  Proof.
+    intros Hmem Hall. apply legal_histories; [exact Hmem|].
+    eapply Forall_impl; [|exact Hall]. exact api_ok_legal.
   Qed.
 
   (* ---- the single statements of C12, in terms of Ready -------------------------------------------- *)
@@ -426,14 +486,14 @@ Section Legal.
     k_kind (dev s) = kd -> k_csd (dev s) = csd -> k_tim (dev s) = tim ->
     c_fbuf (dev s) = [] -> c_phase (dev s) = PIdle -> c_mem (dev s) = mem ->
     (exists h, mon (tr s) = inl h /\ h_mode h = HFree) ->
-    mem_ok mem -> legal_call c ->
+    mem_ok mem -> api_ok c ->
     exists s1 s', API CMarkUninit s = (Ok VUnit, s1) /\
                   API c s1 = (spec_outcome mem c, s') /\ Inv s' (spec_after mem c).
   Proof.
     intros Hk Hc Ht Hf Hp Hm Hh Hmem Hr.
     set (s1 := {| dev := dev s; tr := tr s; ctype := None |}).
     assert (I1 : Inv s1 mem) by (right; repeat split; assumption).
-    destruct (api_step_all s1 mem c I1 Hmem Hr) as (s' & E & I' & _).
+    destruct (api_step_all s1 mem c I1 Hmem (api_ok_legal c Hr)) as (s' & E & I' & _).
     exists s1, s'. split; [reflexivity|]. split; assumption.
   Qed.
 End Legal.
